@@ -30,7 +30,13 @@ func newTCPConnectionActor(client bool, conn net.Conn, advertiseAddr string, cod
 		envelopHandler: envelopHandler,
 		codec:          codec,
 	}
-	return c, c.handshake()
+	if err := c.handshake(); err != nil {
+		return c, err
+	}
+	// 读缓冲在整个连接生命周期内只创建一次：bufio.Reader 会预读并缓存超出当前帧的字节，
+	// 若每帧新建一个，其缓存的后续帧数据会随之丢弃，导致丢帧与帧边界错位。
+	c.reader = bufio.NewReader(conn)
+	return c, nil
 }
 
 type tcpConnectionActorOption func(options *tcpConnectionActorOptions)
@@ -49,6 +55,7 @@ type tcpConnectionActorOptions struct {
 type tcpConnectionActor struct {
 	options        tcpConnectionActorOptions
 	conn           net.Conn
+	reader         *bufio.Reader // 连接的读缓冲，见 newTCPConnectionActor
 	codec          vivid.Codec
 	envelopHandler NetworkEnvelopHandler
 	advertiseAddr  string
@@ -88,7 +95,7 @@ func (c *tcpConnectionActor) onLaunch(ctx vivid.ActorContext) {
 
 func (c *tcpConnectionActor) onReadConn(ctx vivid.ActorContext) (fatal bool, err error) {
 	// 消息读取
-	reader := bufio.NewReader(c.conn)
+	reader := c.reader
 	lengthBuf := make([]byte, 4)
 	if _, err = io.ReadFull(reader, lengthBuf); err != nil {
 		// 对等连接已关闭
